@@ -27,9 +27,42 @@ theorem Sketch.reset_error {l : Bool} {s : Sketch} {f : Fault}
       · cases h; rfl
       · cases h
 
-theorem Sketch.increment_error {l : Bool} {s : Sketch} {hash : UInt64} {f : Fault}
-    (h : Sketch.increment l s hash = .error f) : f = .overflow := by
-  unfold Sketch.increment at h
+/-- `Sketch.increment` with the counter update and the aging step abstracted (keeps the
+kernel away from unfolding `incrementAt` / `reset` on symbolic arguments). -/
+def Sketch.incGenQ (inc : Array Nat → Nat → Nat → Array Nat × Bool)
+    (rst : Sketch → Except Fault Sketch) (idx : Nat → Nat) (st : Nat) (s : Sketch) :
+    Except Fault Sketch :=
+  if s.table.size = 0 then .ok s
+  else
+    Sketch.increment.match_1 (fun _ => Except Fault Sketch) (inc s.table (idx 0) (st + 0)) fun t a0 =>
+    Sketch.increment.match_1 (fun _ => Except Fault Sketch) (inc t (idx 1) (st + 1)) fun t a1 =>
+    Sketch.increment.match_1 (fun _ => Except Fault Sketch) (inc t (idx 2) (st + 2)) fun t a2 =>
+    Sketch.increment.match_1 (fun _ => Except Fault Sketch) (inc t (idx 3) (st + 3)) fun t a3 =>
+    if a0 || a1 || a2 || a3 then
+      if s.size + 1 > U32_MAX then .error .overflow
+      else
+        let s' := { s with table := t, size := s.size + 1 }
+        if s'.size ≥ s'.sampleSize then rst s' else .ok s'
+    else .ok { s with table := t }
+
+theorem Sketch.increment_eq_incGenQ (legacy : Bool) (s : Sketch) (hash : UInt64) :
+    Sketch.increment legacy s hash
+      = Sketch.incGenQ Sketch.incrementAt (Sketch.reset legacy) (s.indexOf hash)
+          (Sketch.start hash) s := rfl
+
+theorem Sketch.incGenQ_error (inc : Array Nat → Nat → Nat → Array Nat × Bool)
+    (rst : Sketch → Except Fault Sketch) (idx : Nat → Nat) (st : Nat) (s : Sketch)
+    (hr : ∀ s f, rst s = .error f → f = .overflow) {f : Fault}
+    (h : Sketch.incGenQ inc rst idx st s = .error f) : f = .overflow := by
+  unfold Sketch.incGenQ at h
+  generalize inc s.table (idx 0) (st + 0) = r0 at h
+  obtain ⟨t0, a0⟩ := r0
+  generalize inc t0 (idx 1) (st + 1) = r1 at h
+  obtain ⟨t1, a1⟩ := r1
+  generalize inc t1 (idx 2) (st + 2) = r2 at h
+  obtain ⟨t2, a2⟩ := r2
+  generalize inc t2 (idx 3) (st + 3) = r3 at h
+  obtain ⟨t3, a3⟩ := r3
   dsimp only at h
   split at h
   · cases h
@@ -37,9 +70,14 @@ theorem Sketch.increment_error {l : Bool} {s : Sketch} {hash : UInt64} {f : Faul
     · split at h
       · cases h; rfl
       · split at h
-        · exact Sketch.reset_error h
+        · exact hr _ _ h
         · cases h
     · cases h
+
+theorem Sketch.increment_error {l : Bool} {s : Sketch} {hash : UInt64} {f : Fault}
+    (h : Sketch.increment l s hash = .error f) : f = .overflow := by
+  rw [Sketch.increment_eq_incGenQ] at h
+  exact Sketch.incGenQ_error _ _ _ _ _ (fun _ _ h => Sketch.reset_error h) h
 
 namespace Sync
 
